@@ -128,6 +128,7 @@ def main():
     checker_cmds = []
     probes_run = 0
     bounded_notes = []
+    spec_lemmas = set()
     try:
         # ---------------- Verus units
         for specname in cfg.get("units", []):
@@ -165,6 +166,12 @@ def main():
                                               "contract": t["contract"],
                                               "solver_ms": next((v[0] for k, v in r.fn_times.items() if k.endswith(fn.split("::", 1)[-1])), None)})
                     backends["verus/z3"] = backends.get("verus/z3", 0) + n
+            # spec-level lemmas of the preambles that Verus discharged in this unit (proof fns; they carry the unit's argument)
+            for k, v in sorted(r.fn_times.items()):
+                if "::lemma_" in k and v[1]:
+                    spec_lemmas.add(k)
+            for g in info.get("generated", []):
+                bounded_notes.append("unit %s: generated check %s, bound %s, %s concrete inputs evaluated by Verus `by (compute)` -- bounded, cross-check only" % (specname, g.get("generator"), g.get("bound"), g.get("strings")))
             for c in info["clauses"]:
                 if pid in c["props"] and len(samples) < 12 and not c["text"].startswith("//"):
                     samples.append("%s :: %s" % (c["fn"], c["text"][:160]))
@@ -259,6 +266,7 @@ def main():
             "rewrite_rule_applications": rule_counts,
             "vacuity_probes_run": probes_run,
             "bounded": bounded_notes,
+            "spec_lemmas_verified": sorted(spec_lemmas),
             "samples": samples or ["(no clause tagged)"],
             "known_findings": [k["what"] for k, _ in known_hits],
             "other_failures_not_this_property": other_failures,
